@@ -429,6 +429,17 @@ def gen_C07(r):
                 op["env"].pop(r.choice(sorted(op["env"])))
         if k and r.random() < 0.5:
             op["gap"] = r.choice([0.0, 0.0, 0.3])
+        if r.random() < 0.06:
+            # something that is not a directory sits where a run_command's output directory belongs (a stray
+            # file, a link to a file): the task cannot be launched - it must not run with COND_OUT naming it
+            cmds = [t for t, d in scn["tasks"].items() if d["kind"] == "cmd"]
+            if cmds:
+                from . import model as M_
+
+                ct = r.choice(cmds)
+                item = r.choice([{"kind": "file", "path": M_.out_dir_rel(ct)},
+                                 {"kind": "symlink", "path": M_.out_dir_rel(ct), "target": "/etc/hostname"}])
+                ops.append({"op": "plant", "items": [item]})
         ops.append(op)
         if r.random() < 0.3 and scn["disable_git"] is False and ops[0]["op"] == "git":
             ops.append({"op": "git", "action": "commit", "name": "c%d" % (k + 1)})
@@ -531,6 +542,23 @@ def _small_project(r, n=(2, 5), kinds=None, p_par=0.4):
 
 
 def gen_C06(r):
+    if r.random() < 0.15:
+        # several experiments in flight at once, some failing early, some late (after others have been recorded)
+        scn = _fanout_scenario(r, stop_early_p=0.15, fail_p=0.35)
+        op = scn["history"][0]
+        for t, d in scn["tasks"].items():
+            if d["kind"] == "cmd" and not d["deps"]:
+                d["kind"] = "exp"
+        for t, lst in op["scripts"].items():
+            for sc in lst:
+                if sc["end"] != ["exit", 0] and r.random() < 0.6:
+                    sc["steps"] = [["nop"]] * r.choice([3, 10, 30, 60])
+                sc["steps"] = list(sc["steps"]) + [["file", "res.csv", {"k": "bin", "n": 50, "seed": r.randrange(1 << 30)}]]
+        scn["knobs"]["mon"] = True
+        scn["knobs"]["cpu_count"] = 2
+        scn["history"].append({"op": "run", "target": op["target"], "flags": {"jobs": 2}, "cwd": "", "gap": 2.0, "scripts": {}})
+        scn["enum"] = {"step": r.choice([0, 0, 1]), "budget": 24 if _tier() == "quick" else 400}
+        return scn
     scn = _small_project(r)
     ops = []
     if not scn["disable_git"] and r.random() < 0.6:
@@ -812,8 +840,14 @@ def _tree_script(r):
         steps.append(["file", r.choice(["res.csv", "data/out.bin", "m.txt", "d/e/f.json", "d/e/g.json", "x.task.5/inner.txt",
                                          "logs/run.task/l.txt"]),
                       {"k": r.choice(["bin", "txt", "all"]), "n": r.choice([0, 1, 100, 5000, 70000]), "seed": r.randrange(1 << 30)}])
+    if r.random() < 0.3:
+        # names that filters written for tidiness (hidden files, editor / OS / VCS droppings, caches) would drop
+        for nm in r.sample(["._res.csv", ".DS_Store", ".hidden", ".git/config", ".gitignore", "__pycache__/m.pyc", "m.txt~",
+                            "#m.txt#", "core", "Thumbs.db", "a b.txt", "-x.txt", "d/._cache/k", "caf\u00e9.txt", ".nfs0001",
+                            "x.tmp", "x.bak", "x.swp", "node_modules/p/i.js", "CVS/Root", "tmp/t"], r.randint(1, 3)):
+            steps.append(["file", nm, {"k": "txt", "n": r.choice([0, 7, 300]), "seed": r.randrange(1 << 30)}])
     if r.random() < 0.25:
-        steps.append(["mkdir", r.choice(["emptydir", "d/empty"])])
+        steps.append(["mkdir", r.choice(["emptydir", "d/empty", ".cache", "._d"])])
     if r.random() < 0.15:
         steps.append(["symlink", "latest", "m.txt"])
     if r.random() < 0.3:
@@ -829,6 +863,9 @@ def gen_C11(r):
            "git": {"mode": "none"}, "disable_git": r.random() < 0.5, "history": [],
            "knobs": S.gen_knobs(r, mon=False, p_async_choices=(0.0,))}
     ops = []
+    if r.random() < 0.1:
+        # two packages share an included file and extend its lists in place (each COND file gets fresh objects)
+        S.add_include(r, scn)
     if not scn["disable_git"] and r.random() < 0.6:
         ops += [{"op": "git", "action": "init"}, {"op": "git", "action": "commit", "name": "c0"}]
     exps = [t for t, d in tasks.items() if d["kind"] == "exp"]
@@ -845,7 +882,7 @@ def gen_C11(r):
 
     for k in range(r.randint(1, 4)):
         ops.append(run_op(0.0 if k == 0 else 0.6))
-        if ops[0]["op"] == "git" and r.random() < 0.3:
+        if ops[0]["op"] == "git" and r.random() < 0.5:
             ops.append({"op": "git", "action": "commit", "name": "c%d" % (k + 1)})
             if r.random() < 0.3:
                 ops.append({"op": "git", "action": "dirty", "value": True})
@@ -863,6 +900,16 @@ def gen_C11(r):
     if c < 0.45:
         target = r.choice(list(tasks))
     out = "A0" if r.random() < 0.8 else None
+    commits_ = [o["name"] for o in ops if o["op"] == "git" and o.get("action") == "commit"]
+    if len(commits_) >= 1 and r.random() < (0.6 if target else 0.25):
+        # archive from another point of the history: an older commit (detached) or a new branch off it - what is
+        # archived does not depend on what is checked out
+        co = {"op": "git", "action": "checkout", "target": r.choice(commits_)}
+        if r.random() < 0.5:
+            co["new_branch"] = "side"
+        ops.append(co)
+        if r.random() < 0.5:
+            ops.append({"op": "git", "action": "commit", "name": "s0"})
     if r.random() < 0.2:
         # an earlier archive command that was killed (its temporary index may stay behind)
         scn["knobs"]["mon"] = True
@@ -1054,6 +1101,10 @@ def gen_C17(r):
     cwd_pool += ["@expdir:%d" % r.randrange(6), "@expdir:%d" % r.randrange(6), "@insideexp:%d" % r.randrange(6)]
     if r.random() < 0.3:
         scn["enclosing"] = True
+    elif r.random() < 0.05:
+        scn["condout_symlink"] = "dangling-relative"
+    if r.random() < 0.25:
+        S.add_include(r, scn)
     have_arch = None
     for k in range(r.randint(2, 8)):
         c = r.random()
@@ -1082,12 +1133,17 @@ def gen_C17(r):
                   "flags": {"latest": r.random() < 0.3}, "cwd": cwd}
             if name:
                 have_arch = name
+            elif r.random() < 0.85 and not str(cwd).startswith(("cond-out", "@")):
+                op["out_rel"] = "rel-%d.tar.gz" % k
         elif c < 0.95 and have_arch:
             if r.random() < 0.5:
                 ops.append({"op": "clean", "cwd": r.choice(cwd_pool)})
             op = {"op": "restore", "archive": have_arch, "cwd": cwd}
         else:
             op = {"op": "clean", "cwd": cwd}
+        if scn.get("enclosing") and r.random() < (0.45 if op["op"] == "where" else 0.2) and op["op"] in ("where", "gc", "run", "archive"):
+            # started by a task of the enclosing project (nested invocation): its COND_* variables are inherited
+            op["env"] = {"COND_OUT": "@outer-project-out", "COND_NAME": "outer", "COND_DEPS": ""}
         ops.append(op)
     if r.random() < 0.12:
         # gc started from inside an experiment output directory while several unrecorded ones (failed
